@@ -853,10 +853,19 @@ func genBatch(prop string, g *Gen, m *Model, rng *SplitMix) []Cmd {
 		// (commands whose reply is built after the write are the interesting
 		// ones: set --json and claim <id> re-read the store once they are done)
 		t := taskRef()
-		first := Cmd{Op: "set", ID: t, State: sp(g.oneOf("done", "blocked", "todo", "canceled")), Agent: agent()}
-		if rng.Chance(1, 3) {
+		var first Cmd
+		switch rng.Intn(7) {
+		case 0, 1:
+			first = Cmd{Op: "set", ID: t, State: sp(g.oneOf("done", "blocked", "todo", "canceled")), Agent: agent()}
+		case 2:
 			first = Cmd{Op: "claim_id", ID: t, Agent: agent()}
-		} else if rng.Chance(1, 3) {
+		case 3:
+			first = Cmd{Op: "plan", Plan: g.planDoc(false)}
+		case 4:
+			first = Cmd{Op: "sequence", IDs: []string{taskRef(), taskRef(), taskRef()}}
+		case 5:
+			first = Cmd{Op: "new_task", Title: sp(g.text("title")), Claim: sp(agent())}
+		default:
 			first = mutation()
 		}
 		cmds = []Cmd{first}
